@@ -150,7 +150,7 @@ def run_cvc5(text, timeout_s=None):
         os.unlink(path)
 
 
-def prove(hyps, goal, timeout_ms=None, use_cvc5=True, both=False, cvc5_first=False):
+def prove(hyps, goal, timeout_ms=None, use_cvc5=True, both=False, cvc5_first=False, quick=False):
     """Is (/\\ hyps) => goal valid?  status: 'unsat' (discharged) | 'sat' (refuted; model attached) | 'unknown'."""
     t0 = time.time()
     if is_false(simplify(goal)):
@@ -227,6 +227,8 @@ def prove(hyps, goal, timeout_ms=None, use_cvc5=True, both=False, cvc5_first=Fal
             return Result('unsat', 'cvc5-1.0.3', time.time() - t0)
         if c == 'sat':
             return Result('sat', 'cvc5-1.0.3', time.time() - t0, detail='cvc5 sat (no model extracted)')
+    if quick:
+        return Result('unknown', 'z3', time.time() - t0, detail='quick mode (the task had already lost obligations): ' + str(s.reason_unknown()))
     m = finite_shape_model(list(hyps) + [Not(goal)])
     if m is not None:
         return Result('sat', 'z3-%s' % z3.get_version_string(), time.time() - t0, model=m[1],
